@@ -10,8 +10,8 @@ sys.path.insert(0, '/verif/lib')
 import vlib
 
 ALL = 'func,methodV,methodP,iface,ifaceBoth,fvalue,ifaceImplSpec,mvalue'
-TIERS = {'quick': [dict(arity=2, forms=ALL), dict(arity=3, forms='func', only_arity=3)],
-         'thorough': [dict(arity=3, forms=ALL)]}
+TIERS = {'quick': [dict(arity=2, forms=ALL), dict(arity=3, forms='func', only_arity=3), dict(arity=1, forms='twokeys')],
+         'thorough': [dict(arity=3, forms=ALL), dict(arity=1, forms='twokeys')]}
 
 
 def main(tier):
